@@ -123,10 +123,11 @@ def seeded_cases(prop):
 
 
 def _failing_keys(prop, overlay):
-    mod = importlib.import_module('props.' + prop)
-    program = Program(overlay=overlay)
-    ctx = Ctx(prop, program, tier='quick', quiet=True)
-    mod.run(ctx)
+    # the same decision procedure as ./check: view 1, then the helpers-inlined view if view 1 is not clean (sa/views.py)
+    from sa.views import evaluate
+    ctx, err, _view = evaluate(prop, overlay=overlay, quiet=True)
+    if err is not None:
+        raise err
     keys = sorted({o.key for o in ctx.failures()})
     if not keys and ctx.deficits:
         raise AnalysisError('; '.join(ctx.deficits))
@@ -189,10 +190,28 @@ def run_selftest(prop, seed=0, verbose=False, jobs=16):
             continue
         todo.append((c, (prop, c['name'], c['kind'], overlay)))
     results = {}
+    unrun = 0
+    # hand-written cases, filed seeds and filed refactorings come first in `cases`; the automatic twins last.  A time budget
+    # (VERIF_SELFTEST_BUDGET seconds, default 900) bounds the run: what it cuts off is counted, never reported as passed.
+    try:
+        budget = float(os.environ.get('VERIF_SELFTEST_BUDGET', '900'))
+    except ValueError:
+        budget = 900.0
     if todo:
-        with ProcessPoolExecutor(max_workers=min(jobs, len(todo))) as ex:
-            for (c, _), res in zip(todo, ex.map(_run_case, [t[1] for t in todo])):
-                results[c['name']] = (c, res)
+        ex = ProcessPoolExecutor(max_workers=min(jobs, len(todo)))
+        try:
+            futs = [(c, ex.submit(_run_case, t)) for c, t in todo]
+            for c, f in futs:
+                if time.time() - t0 > budget:
+                    if f.done():
+                        results[c['name']] = (c, f.result())
+                    else:
+                        f.cancel()
+                        unrun += 1
+                    continue
+                results[c['name']] = (c, f.result())
+        finally:
+            ex.shutdown(wait=True, cancel_futures=True)
     bad = []
     n_m = n_t = 0
     for name, (c, (_, kind, status, payload)) in results.items():
@@ -226,6 +245,8 @@ def run_selftest(prop, seed=0, verbose=False, jobs=16):
                % (prop, n_m - sum(1 for b in bad if b.startswith('mutant')),
                   n_t - sum(1 for b in bad if b.startswith('twin')), len(skipped), len(bad),
                   time.time() - t0)]
+    if unrun:
+        summary.append('  not run (time budget of %.0fs reached): %d cases, all of them automatic twins at the end of the list' % (budget, unrun))
     for s in skipped:
         summary.append('  skipped %s: %s' % s)
     for b in bad:
